@@ -556,45 +556,17 @@ def rule_bound(rep, F, cddl, aud):
                     rep.violation("BOUND", "%s%s|built-in|%s" % (H.short(adt), "::" + variant if variant else "", k), "%s builds a %s%s directly, bypassing the validating constructor %s (CDDL bound %d)" % (k, H.short(adt), "::" + variant if variant else "", ctors[0], bound), {})
                     continue
                 found_ctor = True
-                # dominating comparison
-                defs = {}
-                for bj, bb in enumerate(fn["bbs"]):
-                    for st in bb["st"]:
-                        if st[1] == "=":
-                            defs.setdefault(st[2].split("|")[0], []).append(("stmt", st[3], bj))
-                    t = bb["t"]
-                    if t[1] == "call":
-                        defs.setdefault(t[4].split("|")[0], []).append(("call", t, bj))
+                from ruleutil import gate_limit
+                lim, why, q = gate_limit(F, fid, bi)
                 ok = False
-                why = "no dominating length comparison"
-                for s in dominators(fn, bi):
-                    t = fn["bbs"][s]["t"]
-                    if t[1] != "switch":
-                        continue
-                    cp = t[2][1].split("|")[0]
-                    ds = [d for d in defs.get(cp, []) if d[0] == "stmt" and d[1][0] == "bin"]
-                    if len(ds) != 1:
-                        continue
-                    rv = ds[0][1]
-                    op, lhs, rhs = rv[1], rv[2], rv[3]
-                    cl, cr = const_operand_value(F, fn, lhs, defs), const_operand_value(F, fn, rhs, defs)
-                    # which edge dominates the site
-                    false_tgt = [tg for v, tg in t[3] if v == "0"]
-                    on_false = bool(false_tgt) and mp.dominated_by(fn, bi, false_tgt[0]) and false_tgt[0] != t[4]
-                    on_true = mp.dominated_by(fn, bi, t[4]) and not on_false
-                    if cr is not None and cl is None:
-                        lim = {"Le": cr, "Lt": cr - 1}.get(op) if on_true else {"Gt": cr, "Ge": cr - 1}.get(op) if on_false else None
-                    elif cl is not None and cr is None:
-                        lim = {"Ge": cl, "Gt": cl - 1}.get(op) if on_true else {"Lt": cl, "Le": cl - 1}.get(op) if on_false else None
-                    else:
-                        lim = None
-                    if lim is None:
-                        why = "comparison %s does not bound the length from above on the constructing edge" % op
-                        continue
-                    if lim <= bound:
+                if lim is not None:
+                    qcalls = {x[5:].split("@")[0] for x in q if x.startswith("call:")}
+                    if not any(c_.endswith("::len") for c_ in qcalls) or any(c_.endswith("::count") or "Chars" in c_ for c_ in qcalls):
+                        why = "the bounded quantity is not the byte length (`len()`) of the value: %s" % sorted(H.short(c_) for c_ in qcalls)[:4]
+                    elif lim <= bound:
                         ok = True  # a stricter API bound still emits conforming bytes
-                        break
-                    why = "the constructing edge allows lengths up to %d, the CDDL bound is %d" % (lim, bound)
+                    else:
+                        why = "the constructing edge allows lengths up to %d, the CDDL bound is %d" % (lim, bound)
                 if not ok:
                     rep.violation("BOUND", "%s%s|%s|gate" % (H.short(adt), "::" + variant if variant else "", k), "%s: %s" % (k, why), {})
         if not found_ctor:
